@@ -262,7 +262,7 @@ func (d *DotGit) Close() error {
 		}
 	}
 
-	d.packMap = nil
+	d.invalidatePackList()
 
 	return errors.Join(phErrs...)
 }
